@@ -200,6 +200,7 @@ func planE1(prop, tier string) *e1Plan {
 		p.add(pr, K6)
 		p.add(v, K2)
 		p.add(scopeEmbed(), K)
+		p.add(scopeSrcSync(), K)
 		p.add(scopeGen(), K12)
 		p.add(scopeName2("pairs"), K2)
 		p.add(scopeName2("rest"), KN)
@@ -262,13 +263,12 @@ func planE1(prop, tier string) *e1Plan {
 		p.add(pr, K6)
 		p.add(scopeGen(), K12)
 		p.add(scopeEmbed(), K)
-		srcSync := &SrcPkg{Dir: "s/srcsync_0", Name: "sync", Files: []SrcFile{{Name: "l.go", Decls: "type Locker2 interface{ Lock(l Loc) Loc; Unlock() }\n\ntype Plain interface{ P(int) string }\n"}},
-			Ifaces: []IfaceCase{{Name: "Locker2", Scope: "S-srcsync", Tags: []string{"srcpkg:sync"}}, {Name: "Plain", Scope: "S-srcsync", Tags: []string{"srcpkg:sync"}}}}
-		p.add([]*SrcPkg{srcSync}, K)
+		p.add(scopeSrcSync(), K)
 		p.rule = "S-cfg × (4 destinations × skip-ensure × formatters …), S-type1/S-gen/S-embed × configuration subsets; oracle: self-import absent in same-package modes, source import present iff needed (independent go/types walk) in other modes, zero type errors in the destination package"
 	case "C11":
 		p.oracle = oracleC11
 		p.add(scopeCfg(), K)
+		p.add(scopeSrcSync(), K)
 		p.add(scopeEmbed(), KN)
 		if thorough {
 			p.add(scopeImp(3, true), K2)
